@@ -3,11 +3,16 @@ from html import escape
 from protocol_code_generator.generate.code_block import CodeBlock
 
 
+def docstring_text(protocol_comment):
+    """Comment text as it can stand between triple quotes: backslashes and triple quotes must not be read as Python syntax."""
+    return escape(protocol_comment, quote=False).replace('\\', '\\\\').replace('"""', '\\"\\"\\"')
+
+
 def generate_docstring(protocol_comment):
     lines = []
 
     if protocol_comment:
-        lines.extend(map(str.strip, escape(protocol_comment, quote=False).split('\n')))
+        lines.extend(map(str.strip, docstring_text(protocol_comment).split('\n')))
 
     result = CodeBlock()
     if lines:
